@@ -7,17 +7,17 @@ BASE_CMD = json.load(open('/root/.vp/BASELINE.json'))['cmd'] if os.path.exists('
 claimed = {
  "C01": dict(cat="exploration", tech="deterministic simulation: seeded delivery schedules (fragmentation, zero-length reads, EOF placement, tails) of byte streams into the real decoders, checked against an independent reference codec with exact byte accounting",
    text="Seeded exploration of reader delivery schedules over reference-encoded transactions (single, concatenated stream, block list; standard and extended). Decides the stream clauses of the property (exact consumption, arrival-format re-serialisation, same result under every delivery plan); the value-level round trip is sampled workload with boundary bias, not enumerated.",
-   note="Trusted: the ~150-line reference codec written from the wire-format description, std-lib sha256. Shapes bounded (scripts <= 70 kB, counts <= 65 536 rarely). A clean batch is evidence, not proof.", ref="DESIGN.md §3 C01"),
+   note="Trusted: the ~150-line reference codec written from the wire-format description, std-lib sha256. Shapes bounded (scripts <= 270 kB, counts <= 65 536 rarely). A clean batch is evidence, not proof.", ref="DESIGN.md §3 C01"),
  "C04": dict(cat="exploration", tech="deterministic simulation: seeded multi-party signing/tamper/transit histories over one shared draft tx with failing-signer fault injection; commitment-set reference model checked after every event through the real interpreter",
    text="Seeded exploration of histories (add/remove/move inputs and outputs, sign with each of 12 hash types through FillInput/FillAllInputs, transit through the wire formats, tamper faults, signer failures); after every event each library-signed input must verify iff the projection it committed to is unchanged.",
    note="Assumes SHA-256d collision-freeness and ECDSA unforgeability for the '=> invalid' direction. Only P2PKH / P2PKH-inscription spends; does not decide that digests equal the specification (C02/C03).", ref="DESIGN.md §3 C04"),
  "C09": dict(cat="fault_enumeration", tech="deterministic simulation with fault injection on the reader seam: complete enumeration of truncation offsets and length-field inflations per base stream, seeded bit flips / transient reader errors / delivery plans; totality, consumed<=supplied and allocation-meter oracles",
-   text="Per base stream every truncation offset and every (length field x inflated value) is injected; flips, reader errors and delivery plans are seeded. Oracles: no panic / process death, reported bytes <= bytes handed out, injected error surfaces, allocation <= 8 MiB + 64 x supplied.",
+   text="Per base stream every truncation offset and every (length field x inflated value) is injected; flips, reader errors and delivery plans are seeded. Oracles: no panic / process death / library call that does not return, reported bytes <= bytes handed out, injected error surfaces, allocation <= 8 MiB + 64 x supplied.",
    note="Base streams are sampled; the allocation bound's constants are deliberately loose; allocation failure itself cannot be injected in Go.", ref="DESIGN.md §3 C09"),
  "C12": dict(cat="fault_enumeration", tech="deterministic simulation: scripted supplier (callback + context) with complete enumeration of exhaustion/error/cancellation positions per seeded base scenario; lock-step executable reference model of the funding loop over the recorded call history",
    text="Per seeded base scenario (starting tx, fee quote, supplier history) every fault position is enumerated: exhaustion, unrelated error and context cancellation at each call index. Each execution of the real Fund is checked call by call against a reference funding model (deficit passed, call discipline, terminal result, input fidelity, outputs untouched, bounded calls).",
    note="'Estimated fee' is computed independently: reference-codec size with the documented 107-byte dummy unlocking script per unsigned P2PKH input, exact integer floor arithmetic; base scenarios are sampled; inputs on error paths are unconstrained.", ref="DESIGN.md §3 C12"),
- "C18": dict(cat="exploration", tech="deterministic simulation: source-instrumented scratch copy run under a seeded cooperative scheduler with simulated RWMutex and clock; vector-clock race detection, porcupine linearizability against a sequential fee-quote model, interleaved-vs-solo equality for one shared engine",
+ "C18": dict(cat="exploration", tech="deterministic simulation: source-instrumented scratch copy run under a seeded cooperative scheduler with simulated RWMutex, Once, Pool, atomics, timers and clock; vector-clock race detection, porcupine linearizability against a sequential fee-quote model, interleaved-vs-solo equality for one shared engine",
    text="Seeded search over interleavings of caller tasks on shared FeeQuote/FeeQuotes objects (every lock op and guarded access is a yield point, clock jumps injected) and of concurrent Execute calls on one engine; data races by vector clocks, linearizability by porcupine, deadlock and solo-equality checks.",
    note="Races are detected on the instrumented shared types and written package variables of packages bt and interpreter only; dependencies run atomically; sampling, not enumeration.", ref="DESIGN.md §3 C18"),
  "C19": dict(cat="exploration", tech="deterministic simulation: hostile observer party behind the Debugger seam (records, then scribbles snapshots at seeded or all callbacks); lifecycle automaton over the callback history and three-way run equality (none / recording / scribbling / fan-out)",
